@@ -505,3 +505,72 @@ for dt in ('<i1', '<i2', '<i4', '<i8', '<u1', '<u2', '<u4', '<u8', '<f4', '<f8',
     shutil.rmtree(top)
 sys.exit(1 if bad else 0)
 '''
+
+
+
+def run_getters(rep, st, tier):
+    """extension glue of the three getters: each wrapper calls exactly its own library getter on the writer object and returns that value"""
+    try:
+        ir = _ir(); mod = Module(ir)
+    except Exception as e:
+        rep.ob('extension glue: getters', 'inconclusive', detail=str(e)[:300]); return
+    rep.functions.append('_py_rf_write_hdf5_get_last_file_written / _get_last_dir_written / _get_last_utc_timestamp (extension)')
+    pairs = [('@_py_rf_write_hdf5_get_last_file_written', 'digital_rf_get_last_file_written', 's'),
+             ('@_py_rf_write_hdf5_get_last_dir_written', 'digital_rf_get_last_dir_written', 's'),
+             ('@_py_rf_write_hdf5_get_last_utc_timestamp', 'digital_rf_get_last_write_time', 'K')]
+    bad = []; npaths = 0
+    for fn, want, fmt in pairs:
+        res = []
+
+        def setup(ex):
+            o = WObj(ex); o.fresh_open_state(10, 1, 2, 1000, 0, 0, 1)
+            ex.user['wobj'] = o
+            ex.user['pyargs'] = [Ptr(ex.new_region('capsule'))]
+            return [NULL, Ptr(ex.new_region('args'))]
+
+        def on_path(ex, status, ret, want=want, fmt=fmt):
+            calls = [e for e in ex.events if e[0] == 'lib']; rets = [e for e in ex.events if e[0] == 'ret']
+            ok = status == 'ret' and len(calls) == 1 and calls[0][1] == want and calls[0][2][0] == ex.user['wobj'].ptr and len(rets) == 1 and rets[0][1] == fmt
+            if ok:
+                v = rets[0][2][0]; w_ = calls[0][4]
+                ok = (isinstance(v, Ptr) and isinstance(w_, Ptr) and v.region == w_.region) if fmt == 's' else (not isinstance(v, Ptr) and ex.valid(v == w_))
+            res.append(bool(ok))
+
+        S = _stubs(None)
+        def getter(name, isstr):
+            def f(ex, o):
+                if isstr:
+                    r = ex.new_region('str_' + name); ex.mem[r]['cells'][()] = SymStr([name]); val = Ptr(r, (0,))
+                else:
+                    val = z3.Int('val_' + name)
+                ex.events.append(('lib', name, (o,), True, val)); return val
+            return f
+        for nm, isstr in (('digital_rf_get_last_file_written', True), ('digital_rf_get_last_dir_written', True), ('digital_rf_get_last_write_time', False)):
+            S['@' + nm] = getter(nm, isstr)
+        ex = Exec(mod, S, {}, timeout_ms=4000, fallback_ms=60000)
+        try:
+            npaths += ex.explore(fn, setup, on_path)
+        except (Inconclusive, AssertFail) as e:
+            rep.ob('extension glue: getters', 'inconclusive', detail='%s: %s' % (fn, str(e)[:200])); return
+        if not res or not all(res): bad.append(fn)
+    name = 'extension glue: get_last_file_written / get_last_dir_written / get_last_utc_timestamp each call their own library getter on the writer object and return its value'
+    if not bad: rep.ob(name, 'discharged', 'all states of the writer object', 0, 0, npaths)
+    else: rep.violation(name, 'EXT.getters', 'wrong wiring in %s' % bad, replay_body=REPLAY_GETTERS)
+
+
+REPLAY_GETTERS = '''
+from vlib import build
+import numpy as np, tempfile, os, shutil, sys, time, warnings
+warnings.simplefilter('ignore')
+drf = build.load_pkg()
+top = tempfile.mkdtemp(); os.makedirs(top + '/ch')
+w = drf.DigitalRFWriter(top + '/ch', 'i2', 3600, 1000, 10**10, 10, 1, 'u', is_complex=False, marching_periods=False)
+t0 = int(time.time()) - 2
+w.rf_write(np.arange(25, dtype='i2'))
+f, d, t = w.get_last_file_written(), w.get_last_dir_written(), w.get_last_utc_timestamp()
+bad = 0
+if not (os.path.basename(f).endswith('rf@1000000002.000.h5') and os.path.dirname(f) == os.path.normpath(d) and os.path.isdir(d)): print('last file / dir', f, d); bad = 1
+if not (t0 <= int(t) <= int(time.time()) + 2): print('last write time', t); bad = 1
+w.close(); shutil.rmtree(top)
+sys.exit(1 if bad else 0)
+'''
